@@ -1049,7 +1049,67 @@ async def sc_busy(case: dict, a: Any, b: Any, notes: dict) -> str | None:
     return None
 
 
-SCENARIOS = {"transfer": sc_transfer, "flood": sc_flood, "close": sc_close, "busy": sc_busy}
+async def sc_close_blocked(case: dict, a: Any, b: Any, notes: dict) -> str | None:
+    """local close while tasks are blocked in receive() and/or send() on that stream: each of them ends
+    with ClosedResourceError, none stays blocked, the loop reports no internal error (F13)"""
+    import logging
+
+    out: dict[str, str] = {}
+    errs: list[str] = []
+
+    class H(logging.Handler):
+        def emit(self, record: logging.LogRecord) -> None:
+            errs.append(record.getMessage().splitlines()[0])
+
+    h = H()
+    logging.getLogger("asyncio").addHandler(h)
+
+    async def recv() -> None:
+        try:
+            await a.receive()
+            out["recv"] = "returned"
+        except BaseException as e:  # noqa: BLE001
+            out["recv"] = type(e).__name__
+
+    async def send() -> None:
+        try:
+            await a.send(pattern(case["seed"], 8 * 1024 * 1024))  # the peer never reads
+            out["send"] = "returned"
+        except BaseException as e:  # noqa: BLE001
+            out["send"] = type(e).__name__
+
+    want = [k for k in ("recv", "send") if k in case["blocked"]]
+    try:
+        async with anyio.create_task_group() as tg:
+            if "recv" in want:
+                tg.start_soon(recv)
+            if "send" in want:
+                tg.start_soon(send)
+            await anyio.sleep(0.03)
+            await a.aclose()
+            with anyio.move_on_after(3):
+                while len(out) < len(want):
+                    await anyio.sleep(0.005)
+            tg.cancel_scope.cancel()
+    finally:
+        logging.getLogger("asyncio").removeHandler(h)
+    for k in want:
+        if k == "send" and out.get(k) in ("returned", "BrokenResourceError"):
+            # a send that was in progress when the stream was closed under it: the property speaks
+            # of operations on a closed stream and of never blocking; the TCP transport's abort()
+            # releases the drain wait and send() returns (DESIGN section 4, scoping)
+            continue
+        if out.get(k) != "ClosedResourceError":
+            what = "stayed blocked" if out.get(k) in (None, "CancelledError") else f"ended with {out.get(k)}"
+            return (f"stream closed locally while {' and '.join(want)} were blocked: the task in {k}() {what} "
+                    f"instead of raising ClosedResourceError")
+    if errs:
+        return f"closing the stream with {' and '.join(want)} blocked made the event loop log: {errs[0]}"
+    return None
+
+
+SCENARIOS = {"transfer": sc_transfer, "flood": sc_flood, "close": sc_close, "busy": sc_busy,
+             "close_blocked": sc_close_blocked}
 
 
 def run_real(case: dict) -> tuple[str | None, dict]:
@@ -1127,6 +1187,9 @@ def gen_real_cases(rng: random.Random, tier: str) -> list[dict]:
                                   "first_max": rng.choice([1, 3, 100]),
                                   "maxb": rng.choice([1, 2, 7, 100, 65536])})
                 cases.append({**base, "scenario": "busy", "seed": rng.randrange(1 << 30)})
+            for blocked in (["recv"], ["send"], ["recv", "send"]):
+                cases.append({**base, "scenario": "close_blocked", "seed": rng.randrange(1 << 30),
+                              "blocked": blocked})
     return cases
 
 
